@@ -110,6 +110,23 @@ CHECKS = {
              "order) are compared bit for bit with frames from every construction route, and the round trip / nearest-channel / "
              "monotonicity claims are checked on every channel of every generated frame -- sampling of geometries, not a proof for all doubles.",
         design="3/C05", technique="Coq proof over Q (field/lra, round-half-even lemmas) + PrimFloat bit-exact twins of linspace/get_index"),
+    "C06": dict(
+        text="Theorems about the rational model of add_signal, for every frame, component form, option set and bounding range: the effective "
+             "column slice is always valid (0 <= lo <= hi <= F); data' = data + returned array pixel by pixel; outside the range the data are "
+             "the very same values (Leibniz equality, carrier independent) and the returned array is zero; shape, axes and resolutions are "
+             "unchanged; what is returned does not depend on prior content, hence successive injections superpose in any order. Each "
+             "implementation step is re-computed by the model from the implementation's own data before it (exact on the exact domain), and "
+             "additivity, confinement, state preservation (incl. metadata, noise estimates, RNG state), bounded-vs-unbounded and "
+             "superposition are evaluated directly on the implementation.",
+        design="3/C06", technique="Coq proof over list/slice routing (law-free where possible) + exact-rational correspondence"),
+    "C01": dict(
+        text="Theorems: with callable components and no options the returned pixel is t_profile(t_i)*f_profile(f_j, path(t_i))*bandpass(f_j) "
+             "on the frame's own axes (Leibniz); array / scalar forms agreeing with a callable on the grid normalise to the same values; an "
+             "array path needs tchans+1 values with smearing and tchans without; the smearing loop equals the mean over n copies centred at "
+             "p + m*(p_next - p)/n; one sub-step = unsmeared; zero outside the range. The model (incl. sub-sample integration of path / "
+             "time / frequency) is compared pixel for pixel with add_signal, exactly where doubles are exact and to 1e-9 otherwise; shipped "
+             "families are compared with closed forms (numpy/scipy primitives trusted; RNG families only to envelope/reproducibility).",
+        design="3/C01", technique="Coq proof (tabulated matrices, loop-to-closed-form induction) + exact-rational pixel correspondence"),
 }
 
 PENDING_REASON = "check not built yet in this session (planned in DESIGN.md section 3); no claim is made for it in this commit"
